@@ -39,4 +39,22 @@ CHECKS.update({
   "text": "one-shot aggregation of 0..64 signatures compared byte for byte with the draft's formula; every composition of incremental aggregation for n <= 8 (sampled above) gives identical bytes; buffer-length contract 0..32(n+2) in exact-size heap blocks; aggverify compared with the model on honest and mutated aggregates; in the order-13/199 small-group configuration every re-encoding s + k*order of every valid aggregate is rejected.",
   "note": "Trusted: ref/halfagg.py, ref/schnorr.py; the small-group driver uses the library's own signer and verifier to establish validity."},
 })
+CHECKS.update({
+ "C08": {
+  "technique": "runtime monitoring: sanitizer build + group-law / Shallue-van de Woestijne reference oracle; tally scenarios balanced through the blind-sum helpers then unbalanced by one unit",
+  "text": "pedersen_commit / generator derivation / both 33-byte parsers / blind-sum helpers / verify_tally (~8k records quick) under ASan+UBSan+VERIFY, every output compared with the group-law model incl. the constructible result-at-infinity failure (generator with known discrete log), prefix 0..255 x boundary x for the parsers, tallies of up to 32+32 commitments over 1..4 assets.",
+  "note": "Trusted: ref/zkp.py, ref/ec.py."},
+ "C09": {
+  "technique": "runtime monitoring: sanitizer build + post-condition monitors (verify, info, rewind, determinism across contexts) + documented success-set predicate",
+  "text": "rangeproof_sign on the edge product of value/min_value/exp/min_bits (sampled in quick) and random fill with messages, extra data, blinds and buffer sizes; every successful proof is verified by the library and by an independent verifier, its range compared with info, rewound with the creator's and with another nonce, re-created in a randomized context with a replaced SHA-256 compression function; documented-invalid parameters must fail, documented-valid must succeed, the rest is counted as unmodelled.",
+  "note": "Trusted: ref/rangeproof.py verifier; the reading of the header documentation encoded in props/c09.py classify()."},
+ "C10": {
+  "technique": "runtime monitoring: sanitizer build + independent reference verifier; adversarial reference prover with chosen (small) forged scalars and arbitrary headers",
+  "text": "rangeproof_verify / info / rewind (~15k records quick) compared with an independent verifier on proofs from an adversarial Python prover (arbitrary exponent, mantissa, min_value, reserved bit, wrapping range with a valid ring signature for the wrapped statement, spare sign bits, no-range proofs) and on library-made proofs, each mutated: forged scalars re-encoded as s+n, scalar := 0/n, digit x off-curve / >= p / sign flipped, e0, all single-bit flips of the smallest proofs and sampled flips of the rest, truncation/extension, other commitment / generator / extra data.",
+  "note": "Trusted: ref/rangeproof.py, ref/borromean.py. Digit-commitment x+p re-encodings are not constructible (needs x < 2^32+977 with known discrete log)."},
+ "C18": {
+  "technique": "runtime monitoring: sanitizer build + BIP-324 XSwiftEC / group-law reference oracle over special and branch-targeted 64-byte strings",
+  "text": "ecdh (all hash choices), ellswift_decode / encode / create / xdh (both parties, all hashers) ~9k records quick; decode compared with a BIP-324 model on random strings, u/t in {0,p,p+1,2^256-1}, the u^3+t^2+7=0 family, with the map branch (x1/x2/x3) and remap taken logged per record; every encoding decodes back to its key in library and model.",
+  "note": "Trusted: ref/ellswift.py."},
+})
 NOT_APPLICABLE = {}
